@@ -591,13 +591,7 @@ func genSegment(c *gal.Ctx, maxLen int, firstLoc int) []cmdT {
 	return h
 }
 
-// ---------------------------------------------------------------- one case
-
-type stepRec struct {
-	c    cmdT
-	lit  string
-	full bool
-}
+// ---------------------------------------------------------------- one object
 
 func histStrings(h []cmdT) []string {
 	s := make([]string, len(h))
@@ -607,109 +601,166 @@ func histStrings(h []cmdT) []string {
 	return s
 }
 
-// runCase drives t through hist (segEnd marks the last command of each
-// sub-history) and registers the case.  If leading is a reset command it is
-// executed first (shared object).
-func runCase(c *gal.Ctx, kind string, t *tpm.TPM, hist []cmdT, segEnd map[int]bool) {
-	ref := &refTPM{}
-	ref.reset()
-	idx := -1 // case index is known only after Add; oracle failures are patched below
-	type fail struct {
-		what  string
-		input interface{}
-	}
-	var fails []fail
-	checks := 0
-	steps := make([]string, 0, len(hist))
-	okExtends := 0
+// objRun drives ONE *tpm.TPM through its history, command by command: runs the
+// command on the implementation and on the reference TPM, records what the
+// implementation shows (the Gallina literal of the step) and asks the oracle.
+// It touches nothing but its own fields, so several objRuns can be stepped by
+// different goroutines.
+type objRun struct {
+	t         *tpm.TPM
+	ref       *refTPM
+	hist      []cmdT
+	fullAt    []bool // steps at which the whole logs are recorded
+	steps     []string
+	prevGets  []getObs
+	prevAlgos string
+	checks    int
+	okExtends int
+	failStep  int // first step the oracle rejected, -1 if none
+	failWhat  string
+}
+
+func newObjRun(t *tpm.TPM, hist []cmdT, fullAt []bool) *objRun {
+	o := &objRun{t: t, ref: &refTPM{}, hist: hist, fullAt: fullAt, failStep: -1}
+	o.ref.reset()
 	// baseline of the delta observations: a new TPM
-	prevGets := make([]getObs, len(grid))
-	for j := range prevGets {
-		prevGets[j] = getObs{class: 1}
+	o.prevGets = make([]getObs, len(grid))
+	for j := range o.prevGets {
+		o.prevGets[j] = getObs{class: 1}
 	}
-	prevAlgos := gal.List([]string{"4", "11"})
-	for i, cm := range hist {
-		class, pmsg := runCmd(t, cm)
-		refOK := ref.exec(cm)
-		if refOK && cm.kind == kExtend {
-			okExtends++
-		}
+	o.prevAlgos = gal.List([]string{"4", "11"})
+	return o
+}
 
-		// ---- observation
-		var gets []string
-		gobs := make([]getObs, len(grid))
-		for j, pa := range grid {
-			gobs[j] = observeGet(t, pa[0], pa[1])
-			if gobs[j].class != prevGets[j].class || !bytes.Equal(gobs[j].val, prevGets[j].val) {
-				gets = append(gets, gal.Pair(fmt.Sprint(j), gobs[j].lit()))
-			}
-		}
-		prevGets = gobs
-		algosNow := make([]string, len(t.SupportedAlgos))
-		for j, a := range t.SupportedAlgos {
-			algosNow[j] = fmt.Sprint(uint16(a))
-		}
-		algos := "None"
-		if al := gal.List(algosNow); al != prevAlgos {
-			algos = "(Some " + al + ")"
-			prevAlgos = al
-		}
-		cl, clOK := projectCmdLog(t)
-		el := projectEvLog(t)
-		full := "None"
-		if segEnd[i] || i == len(hist)-1 || c.Rng.Intn(30) == 0 {
-			cls := make([]string, len(cl))
-			for j, x := range cl {
-				cls[j] = x.lit()
-			}
-			els := make([]string, len(el))
-			for j, x := range el {
-				els[j] = x.evLit()
-			}
-			full = "(Some " + gal.Pair(gal.List(cls), gal.List(els)) + ")"
-		}
-		r := [...]string{"(OOk tt)", "OErr", "OPanic"}[class]
-		steps = append(steps, gal.Pair(cm.lit(), fmt.Sprintf("(SO %s %s %s %d %d %s)",
-			r, gal.List(gets), algos, len(cl), len(el), full)))
+// fullSteps decides (from the PRNG, before anything runs) at which steps the full logs are recorded.
+func fullSteps(c *gal.Ctx, n int, segEnd map[int]bool) []bool {
+	f := make([]bool, n)
+	for i := range f {
+		f[i] = segEnd[i] || i == n-1 || c.Rng.Intn(30) == 0
+	}
+	return f
+}
 
-		// ---- oracle: compare with the reference TPM
-		checks++
-		bad := oracleStep(t, ref, cm, class, pmsg, refOK, gobs, cl, clOK, el)
-		if bad != "" && len(fails) == 0 {
-			f := fail{
-				what:  fmt.Sprintf("after command #%d %s: %s", i, cm, bad),
-				input: map[string]interface{}{"object": "new TPM", "history": histStrings(hist[:i+1]), "failing_step": i},
-			}
-			if strings.HasPrefix(kind, "shared-object") {
-				// the object carries state of earlier cases: look for a closed history on a new object
-				closed := append(dirtyPrefix(), hist[:i+1]...)
-				if k, what := closedRepro(closed); k >= 0 {
-					f.what = fmt.Sprintf("after command #%d %s: %s", k, closed[k], what)
-					f.input = map[string]interface{}{"object": "new TPM", "history": histStrings(closed[:k+1]), "failing_step": k}
-				} else {
-					f.input = map[string]interface{}{"object": "TPM object reused from the earlier cases of this run (replay by seed; the case index identifies the history)",
-						"history": histStrings(hist[:i+1]), "failing_step": i}
-				}
-			}
-			fails = append(fails, f)
+// step executes command #i; returns the oracle's complaint or "".
+func (o *objRun) step(i int) string {
+	t, ref, cm := o.t, o.ref, o.hist[i]
+	class, pmsg := runCmd(t, cm)
+	refOK := ref.exec(cm)
+	if refOK && cm.kind == kExtend {
+		o.okExtends++
+	}
+
+	// ---- observation
+	var gets []string
+	gobs := make([]getObs, len(grid))
+	for j, pa := range grid {
+		gobs[j] = observeGet(t, pa[0], pa[1])
+		if gobs[j].class != o.prevGets[j].class || !bytes.Equal(gobs[j].val, o.prevGets[j].val) {
+			gets = append(gets, gal.Pair(fmt.Sprint(j), gobs[j].lit()))
 		}
 	}
-	lit := "(CHist " + gal.List(ref.table) + " " + gal.List(steps) + ")"
-	idx = c.Add(kind, lit, map[string]interface{}{"object": kind, "history": histStrings(hist)}, okExtends > 0)
-	for i := 0; i < checks-len(fails); i++ {
+	o.prevGets = gobs
+	algosNow := make([]string, len(t.SupportedAlgos))
+	for j, a := range t.SupportedAlgos {
+		algosNow[j] = fmt.Sprint(uint16(a))
+	}
+	algos := "None"
+	if al := gal.List(algosNow); al != o.prevAlgos {
+		algos = "(Some " + al + ")"
+		o.prevAlgos = al
+	}
+	cl, clOK := projectCmdLog(t)
+	el := projectEvLog(t)
+	full := "None"
+	if o.fullAt[i] {
+		cls := make([]string, len(cl))
+		for j, x := range cl {
+			cls[j] = x.lit()
+		}
+		els := make([]string, len(el))
+		for j, x := range el {
+			els[j] = x.evLit()
+		}
+		full = "(Some " + gal.Pair(gal.List(cls), gal.List(els)) + ")"
+	}
+	r := [...]string{"(OOk tt)", "OErr", "OPanic"}[class]
+	o.steps = append(o.steps, gal.Pair(cm.lit(), fmt.Sprintf("(SO %s %s %s %d %d %s)",
+		r, gal.List(gets), algos, len(cl), len(el), full)))
+
+	// ---- oracle: compare with the reference TPM
+	o.checks++
+	bad := oracleStep(t, ref, cm, class, pmsg, refOK, gobs, cl, clOK, el)
+	if bad != "" && o.failStep < 0 {
+		o.failStep, o.failWhat = i, bad
+	}
+	return bad
+}
+
+var cmdNames = [...]string{"", "startup", "extend", "eventlogadd", "reset", "reset-no-init"}
+
+// runCase drives t through hist (segEnd marks the last command of each
+// sub-history) and registers the case.
+func runCase(c *gal.Ctx, kind string, t *tpm.TPM, hist []cmdT, segEnd map[int]bool) {
+	o := newObjRun(t, hist, fullSteps(c, len(hist), segEnd))
+	for i := range hist {
+		o.step(i)
+	}
+	lit := "(CHist " + gal.List(o.ref.table) + " " + gal.List(o.steps) + ")"
+	idx := c.Add(kind, lit, map[string]interface{}{"object": kind, "history": histStrings(hist)}, o.okExtends > 0)
+	nfail := 0
+	if o.failStep >= 0 {
+		nfail = 1
+	}
+	for i := 0; i < o.checks-nfail; i++ {
 		c.OracleOK()
 	}
-	for _, f := range fails {
-		c.OracleFail(idx, f.what, site, f.input)
+	if i := o.failStep; i >= 0 {
+		what := fmt.Sprintf("after command #%d %s: %s", i, hist[i], o.failWhat)
+		var input interface{} = map[string]interface{}{"object": "new TPM", "history": histStrings(hist[:i+1]), "failing_step": i}
+		if strings.HasPrefix(kind, "shared-object") {
+			// the object carries state of earlier cases: look for a closed history on a new object
+			closed := append(dirtyPrefix(), hist[:i+1]...)
+			if k, w := closedRepro(closed); k >= 0 {
+				what = fmt.Sprintf("after command #%d %s: %s", k, closed[k], w)
+				input = map[string]interface{}{"object": "new TPM", "history": histStrings(closed[:k+1]), "failing_step": k}
+			} else {
+				input = map[string]interface{}{"object": "TPM object reused from the earlier cases of this run (replay by seed; the case index identifies the history)",
+					"history": histStrings(hist[:i+1]), "failing_step": i}
+			}
+		}
+		c.OracleFail(idx, what, site, input)
 	}
 	for _, cm := range hist {
-		c.Count("cmd:" + [...]string{"", "startup", "extend", "eventlogadd", "reset", "reset-no-init"}[cm.kind])
+		c.Count("cmd:" + cmdNames[cm.kind])
 	}
 }
 
+func genLife(c *gal.Ctx, maxSeg, maxLen int) ([]cmdT, map[int]bool) {
+	var hist []cmdT
+	segEnd := map[int]bool{}
+	nseg := 1 + c.Rng.Intn(maxSeg)
+	for s := 0; s < nseg; s++ {
+		hist = append(hist, genSegment(c, maxLen, -1)...)
+		if s+1 < nseg {
+			segEnd[len(hist)-1] = true
+			if c.Rng.Intn(2) == 0 {
+				hist = append(hist, cmdT{kind: kReset})
+			} else {
+				hist = append(hist, cmdT{kind: kResetNoInit})
+				if c.Rng.Intn(4) > 0 {
+					hist = append(hist, cmdT{kind: kStartup, l: genLocality(c)})
+				}
+			}
+		}
+	}
+	return hist, segEnd
+}
+
 func main() {
+	installHashWrappers() // before anything can put a hasher into the pool
 	c := gal.New("C02", header, 120)
 	shared := tpm.NewTPM()
+	vets := []*tpm.TPM{shared, tpm.NewTPM(), tpm.NewTPM(), tpm.NewTPM()}
 
 	// fixed witness of the repaired pool-index bug
 	{
@@ -720,8 +771,18 @@ func main() {
 	}
 
 	nSweep := 256
-	nRandom := c.Scale(1400, 12000)
-	for i := 0; i < nSweep+nRandom; i++ {
+	nRandom := c.Scale(1250, 12000)
+	nConc := c.Scale(170, 1600)
+	nPar := c.Scale(6, 40)
+	total := nSweep + nRandom
+	for i := 0; i < total; i++ {
+		// objects driven at the same time, spread evenly over the run (and over the shards)
+		if (i+1)*nConc/total > i*nConc/total {
+			runConcCase(c, vets)
+		}
+		if (i+1)*nPar/total > i*nPar/total {
+			runParCase(c, vets)
+		}
 		var hist []cmdT
 		segEnd := map[int]bool{}
 		useShared := c.Rng.Intn(3) > 0
@@ -744,27 +805,21 @@ func main() {
 			hist = append(hist, cmdT{kind: kStartup, l: genLocality(c)})
 			kind += "/sweep"
 		} else {
-			nseg := 1 + c.Rng.Intn(3)
-			for s := 0; s < nseg; s++ {
-				hist = append(hist, genSegment(c, 40, -1)...)
-				if s+1 < nseg {
-					segEnd[len(hist)-1] = true
-					if c.Rng.Intn(2) == 0 {
-						hist = append(hist, cmdT{kind: kReset})
-					} else {
-						hist = append(hist, cmdT{kind: kResetNoInit})
-						if c.Rng.Intn(4) > 0 {
-							hist = append(hist, cmdT{kind: kStartup, l: genLocality(c)})
-						}
-					}
-				}
+			h, se := genLife(c, 3, 40)
+			for k := range se {
+				segEnd[k+len(hist)] = true
 			}
+			hist = append(hist, h...)
 		}
 		runCase(c, kind, t, hist, segEnd)
 	}
 
-	c.Finish("each case = whole life of one *TPM (1-3 sub-histories of 0..40 commands separated by Reset / ResetNoInit[+Startup]; 2/3 of the cases reuse one shared object); " +
+	fmt.Println("conc time", concT)
+	c.Finish("each sequential case = whole life of one *TPM (1-3 sub-histories of 0..40 commands separated by Reset / ResetNoInit[+Startup]; 2/3 of the cases reuse one shared object); " +
 		"commands startup/extend/eventlogadd/reset/reset-no-init, alg in {4,0xB,0xC,0,5,0xFFFE,0xFFFF,other hash ids,0..11,random 16-bit}, pcr in {0,1,2,255,random}, " +
 		"digest length in {hash size,0,19,20,21,32,random<=64}, 256-case locality sweep; observed after every command; " +
+		"each objects-scheduled case = 2-3 *TPM objects (new or reused), one goroutine each, own histories of 2..12 commands mostly extending the same bank algorithm, " +
+		"under GOMAXPROCS(1) with a PRNG-driven scheduler that moves control at the entry/exit of every Write/Sum/Reset of the pooled hashers (crypto.RegisterHash wrappers) and between commands; " +
+		"each objects-parallel case = 4 *TPM objects driven by really parallel goroutines; in both every object is judged against its own history alone; " +
 		"a case is non-trivial when at least one extend succeeds; distinct = distinct Gallina literal")
 }
